@@ -401,6 +401,52 @@ func runSchemaCase(c Case) interface{} {
 		res := validate.NewSchemaValidator(sch, nil, "", strfmt.Default, opts...).Validate(getData())
 		return map[string]interface{}{"valid": res.IsValid(), "errors": canonErrs(res.Errors)}
 	})
+	// D (C12): a caller-assembled object that holds Go values which are not JSON data (a struct, a pointer to one): whatever the
+	// verdict, the caller's map still holds those very values afterwards
+	if m, isMap := getData().(map[string]interface{}); isMap {
+		validate.VerifResetPools()
+		out["carried"] = observe(func() map[string]interface{} {
+			type carried struct {
+				N int    `json:"n"`
+				S string `json:"s"`
+			}
+			ptr := &carried{N: 2, S: "p"}
+			m["carriedStruct"] = carried{N: 1, S: "v"}
+			m["carriedPtr"] = ptr
+			for k, v := range m { // and inside a nested object, when there is one
+				if inner, ok := v.(map[string]interface{}); ok {
+					inner["carriedStruct"] = carried{N: 3, S: k}
+					break
+				}
+			}
+			snapshot := map[string]interface{}{}
+			for k, v := range m {
+				snapshot[k] = v
+			}
+			_ = validate.AgainstSchema(parseSchemaJSON(sb), m, strfmt.Default, opts...)
+			same := len(snapshot) == len(m)
+			for k, v := range snapshot {
+				switch x := v.(type) {
+				case carried:
+					y, ok := m[k].(carried)
+					same = same && ok && x == y
+				case *carried:
+					y, ok := m[k].(*carried)
+					same = same && ok && x == y && *y == carried{N: 2, S: "p"}
+				case map[string]interface{}:
+					if cs, had := x["carriedStruct"]; had {
+						y, ok := m[k].(map[string]interface{})
+						same = same && ok
+						if ok {
+							z, ok2 := y["carriedStruct"].(carried)
+							same = same && ok2 && z == cs.(carried)
+						}
+					}
+				}
+			}
+			return map[string]interface{}{"carriedSame": same}
+		})
+	}
 	out["hasRef"] = hasRefOrID(c["schema"])
 	return out
 }
